@@ -40,6 +40,12 @@ def run(chk):
     distinct = set()
 
     # ---- regression corpus first
+    # regression corpus (corpus/C07/*.txt and --replay FILE: raw harness lines) runs first
+    extra = A.load_corpus("C07")
+    if getattr(chk, "replay", None):
+        extra = [l.split("harness_line:", 1)[-1].strip().strip('",') for l in open(chk.replay)
+                 if ("do " in l or "start " in l or "stress " in l) and "replay_cmd" not in l]
+    verdicts(chk, A.run_lines(chk, build, extra, "C07"), "corpusfile", distinct)
     res = A.run_scenarios(chk, build, A.CORPUS, "C07c")
     verdicts(chk, res, "corpus", distinct)
     chk.coverage["samples"].append(json.loads(A.describe(res[0])))
@@ -72,7 +78,7 @@ def run(chk):
     specs = []
     for i in range(n_st):
         senders = chk.rng.choice([2, 3, 4, 6])
-        per = chk.rng.choice([10, 20, 40])
+        per = chk.rng.choice([5, 10, 20])
         after = chk.rng.randrange(0, senders * per)
         specs.append((senders, per, after, 0))
     sres = A.run_stress(chk, build, specs, "C07")
